@@ -30,7 +30,8 @@ Definition tconst {A} (v : A) : tmap A := {| m_lis := v; m_rc := v; m_cl := v; m
 Definition full_type (t : rtype) : bool := match t with TLis | TCl => true | _ => false end.
 
 (** cached resource values *)
-Inductive cval := VLis (l : lisres) | VRc (r : rcres) | VCl (c : clres) | VEp (e : option epres).
+Inductive cval := VLis (l : lisres) | VRc (r : rcres) | VCl (c : clres) | VEp (e : option epres)
+| VNil.   (* a nil placeholder (typed-nil pointer) observed in the implementation's cache; never produced by the model *)
 
 Definition reserved_lds : string := "virtualInbound".
 
@@ -160,7 +161,15 @@ Definition handle_resp (c : scfg) (o : oracle) (s : state) (version nonce : stri
   end.
 
 (** lookups *)
-Inductive lookup_result := LHit (v : cval) | LMiss.
+(** what a lookup can return; the last four are never produced by the model (C05) *)
+Inductive lookup_result :=
+| LHit (v : cval)       (* a value of the requested kind, nil error *)
+| LMiss                 (* an error, nil value *)
+| LNil                  (* nil value and nil error *)
+| LBoth                 (* value and error *)
+| LPanic
+| LHang                 (* did not return *)
+| LOther.               (* a value of another kind *)
 
 Definition touch (s : state) (t : rtype) (n : string) : state :=
   match aget n (tget t (s_meta s)) with
@@ -227,6 +236,7 @@ Definition tick (s : state) (d : N) : state :=
 Inductive op :=
 | OSubscribe (t : rtype) (n : string)                       (* start-up subscription *)
 | OLookup (t : rtype) (n : string)
+| OLookups (t : rtype) (ns : list string)                   (* a burst of lookups, observed once at the end *)
 | OLookupUnknown                                            (* a kind the manager does not know *)
 | OResp (version nonce : string) (p : payload)
 | ORespUnknown                                              (* a type url the client does not know *)
@@ -242,6 +252,10 @@ Definition step (c : scfg) (o : oracle) (s : state) (x : op) : state * out :=
   match x with
   | OSubscribe t n => let '(s1, rq) := watch s t n false in (s1, {| o_reqs := rq; o_lookup := None; o_updates := [] |})
   | OLookup t n => let '(s1, rq, r) := lookup s t n in (s1, {| o_reqs := rq; o_lookup := Some r; o_updates := [] |})
+  | OLookups t ns =>
+      let '(s1, rq, r) := fold_left (fun acc n => let '(sa, rqa, _) := acc in let '(sb, rqb, rb) := lookup sa t n in (sb, (rqa ++ rqb)%list, rb))
+                                    ns (s, [], LMiss) in
+      (s1, {| o_reqs := rq; o_lookup := Some r; o_updates := [] |})
   | OLookupUnknown => (s, {| o_reqs := []; o_lookup := Some LMiss; o_updates := [] |})
   | OResp v n p => let '(s1, rq, ups) := handle_resp c o s v n p in (s1, {| o_reqs := rq; o_lookup := None; o_updates := ups |})
   | ORespUnknown => (s, no_out)
